@@ -469,6 +469,16 @@ func (an *Analysis) handleType(typ types.Type, ctx context) Type {
 		return v
 	}
 
+	// an alias denotes the very same type : share the node of the aliased type,
+	// instead of building (and registering) a second one
+	if alias, isAlias := typ.(*types.Alias); isAlias {
+		out := an.handleType(types.Unalias(alias), ctx)
+		if !ctx.isInExtern {
+			an.Types[typ] = out
+		}
+		return out
+	}
+
 	// resolve the type
 	type_ := an.createType(typ, ctx)
 	// register it if not extern
